@@ -1,5 +1,6 @@
 import GohbaseVerif.Drive.C01
 import GohbaseVerif.Drive.C05
+import GohbaseVerif.Drive.C06
 import GohbaseVerif.Drive.C07
 import GohbaseVerif.Drive.C08
 import GohbaseVerif.Drive.C15
@@ -22,6 +23,7 @@ def dispatch (line : String) : String :=
   | "c08" :: rest => Drive.C08.handle rest
   | "c15" :: rest => Drive.C15.handle rest
   | "c05" :: rest => Drive.C05.handle rest
+  | "c06" :: rest => Drive.C06.handle rest
   | "c07" :: rest => Drive.C07.handle rest
   | "c11" :: rest => Drive.C11.handle rest
   | "c10" :: rest => Drive.C10.handle rest
